@@ -62,4 +62,41 @@ def obligations(tier):
                            'datatypes_timex_expression.timex_helpers:TimexHelpers.timex_date_add',
                            'datatypes_timex_expression.timex_constraints_helper:TimexConstraintsHelper.collapse'],
                   engine='symx symbolic execution (lib/symx.py + lib/symdate.py), z3 per branch'))
+    X = 'datatypes_timex_expression.'
+    nrs = [3, 2, 1] if tier == 'quick' else [3, 2, 1, 4]
+    obs.append(Ob('O15.6-collapse-dates', 'sx', 'harness.C15r:h_collapse_dates', twin='harness.C15r:t_collapse_dates', slices=[{'nr': n} for n in nrs], timeout=max(t, 240),
+                  descr='TimexConstraintsHelper.collapse + DateRange on 1..3 (thorough 4) ranges with symbolic endpoints: terminates (variant monitor: a pass that reports '
+                        'a collapse shortens the list), returns >= 1 range, every returned range lies inside one supplied range, sorted; one range comes back unchanged',
+                  bounds='range starts 0..800 and lengths 1..400 as symbolic day numbers (the code only compares endpoints and takes max/min); any order, any overlap pattern',
+                  encodes=[X + 'timex_constraints_helper:TimexConstraintsHelper.collapse', X + 'timex_constraints_helper:TimexConstraintsHelper.inner_collapse',
+                           X + 'date_range:DateRange.is_overlapping', X + 'date_range:DateRange.collapse_overlapping', X + 'date_range:DateRange.sort_range'],
+                  stubs=['inner_collapse wrapped by a termination monitor (calls the real one)', 'range endpoints are ints instead of dates']))
+    obs.append(Ob('O15.6-collapse-times', 'sx', 'harness.C15r:h_collapse_times', slices=[{'nr': n} for n in (3, 2)], timeout=max(t, 240),
+                  descr='the same for TimeRange/Time (start h:m:s symbolic, length 1 s..10 h): every collapsed range lies inside one supplied range',
+                  bounds='2..3 time ranges; Time.from_seconds float division modelled as an exact quotient (symx.SymQuot, validated by the engine self-test)',
+                  encodes=[X + 'time_range:TimeRange.is_overlapping', X + 'time_range:TimeRange.collapse_overlapping', X + 'time:Time.from_seconds', X + 'time:Time.get_time',
+                           X + 'timex_constraints_helper:TimexConstraintsHelper.collapse']))
+    tcs = [[['r', 'H', 2]], [['r', 'M', 30]], [['r', 'S', 45]], [['p', 'AF']], [['r', 'H', 2], ['p', 'AF']], [['r', 'H', 3], ['r', 'M', 90]], [['p', 'NI'], ['p', 'EV']]]
+    if tier == 'thorough':
+        tcs += [[['p', x]] for x in ('DT', 'MO', 'EV', 'NI')] + [[['r', 'M', 45], ['r', 'S', 3000]], [['p', 'DT'], ['r', 'H', 5]], [['r', 'H', 1], ['r', 'H', 6]]]
+    tsl = [{'tcons': c, 'tfields': f} for c in tcs for f in ((2, 3) if tier == 'quick' else (1, 2, 3))]
+    obs.append(Ob('O15.7-time-constraints', 'sx', 'harness.C15r:h_time_constraints', twin='harness.C15r:t_time_constraints', slices=tsl, timeout=max(t, 240),
+                  descr='TimexRangeResolver.evaluate, a time candidate and 1..2 time-range constraints (explicit ranges with hour/minute/second durations, parts of day): '
+                        'it returns; a result is the candidate itself and lies inside at least one supplied time range',
+                  bounds='candidate every h:m[:s]; explicit range start every h:m with h <= 19; durations and parts of day per slice',
+                  encodes=[X + 'timex_range_resolver:TimexRangeResolver.resolve_by_timerange_constraints', X + 'timex_range_resolver:TimexRangeResolver.resolve_time_against_constraint',
+                           X + 'timex_helpers:TimexHelpers.expand_time_range', X + 'timex_helpers:TimexHelpers.add_time', X + 'timex_helpers:TimexHelpers.timerange_from_timex']))
+    mds = [{'mdcon': 'year'}, {'mdcon': 'month'}, {'mdcon': 'days', 'ndays': 45}, {'mdcon': 'days', 'ndays': 400}]
+    if tier == 'thorough':
+        mds += [{'mdcon': 'days', 'ndays': n} for n in (1, 28, 366, 731)]
+    obs.append(Ob('O15.8-monthday-in-range', 'sx', 'harness.C15r:h_monthday_in_range', twin='harness.C15r:t_monthday_in_range', slices=mds, timeout=max(t, 240),
+                  descr='TimexRangeResolver.evaluate, a month-day candidate (every calendar month-day incl. 29 February) and one date-range constraint (a year, a year-month incl. '
+                        'December, an explicit range): it returns; results are definite, have that month and day, lie inside the range',
+                  bounds='constraint anchored at every day 1951..2087; explicit lengths 45/400 days (thorough also 1/28/366/731)',
+                  encodes=[X + 'timex_range_resolver:TimexRangeResolver.resolve_date_against_constraint', X + 'timex_range_resolver:TimexRangeResolver.resolve_definite_against_constraint',
+                           X + 'timex_helpers:TimexHelpers.expand_datetime_range', X + 'timex_helpers:TimexHelpers.daterange_from_timex', X + 'timex_helpers:TimexHelpers.date_from_timex']))
+    wts = [{'ndays': 7, 'wd': 2}] if tier == 'quick' else [{'ndays': n, 'wd': w} for n in (7, 14) for w in (1, 4, 7)]
+    obs.append(Ob('O15.9-weekday-with-time', 'sx', 'harness.C15r:h_weekday_time', twin='harness.C15r:t_weekday_time', slices=wts, timeout=max(t, 240),
+                  descr='weekday candidate + one date range + a time constraint: every instance is a day of the range on that weekday carrying exactly that time',
+                  bounds='range start every day 1951..2089, time every h:m', encodes=[X + 'timex_range_resolver:TimexRangeResolver.resolve_by_time_constraints']))
     return obs
